@@ -5,6 +5,7 @@ import TensoraVerif.Model.AlgebraWire
 import TensoraVerif.Model.GraphWire
 import TensoraVerif.Model.ParserWire
 import TensoraVerif.Model.ApiWire
+import TensoraVerif.Model.CPrint
 import TensoraVerif.Lemmas.PeepholeExact
 open TV
 
@@ -135,6 +136,13 @@ def equivVerdict (fuel : Nat) (orig opt : Stmt Float) (σ : State Float) : Sexp 
         (if optSame valSame o.ret o'.ret then Sexp.mk "same" [] else Sexp.mk "retyped" [])
       else Sexp.mk "DIFF" [.atom "result", outcomeSexp (.ok o), outcomeSexp (.ok o')]
 
+/-- `str(float)` of CPython, supplied by the harness as a table bits ↦ text -/
+def showFloat (reprs : List Sexp) (f : Float) : String :=
+  let key := toString f.toBits.toNat
+  match reprs.find? (fun r => match r with | .list [.atom k, _] => k == key | _ => false) with
+  | some (.list [_, .str t]) => t
+  | _ => "?"
+
 def handle (cmd : String) (args : List Sexp) : Sexp :=
   match cmd, args with
   | "PING", _ => .atom "pong"
@@ -170,6 +178,18 @@ def handle (cmd : String) (args : List Sexp) : Sexp :=
   | "ECHOM", [m] =>
     match IR.Wire.moduleOf m with
     | some m => IR.Wire.moduleToSexp m
+    | none => Sexp.mk "bad-request" [.str "unknown-constructor"]
+  | "CPRINTE", [e, .list reprs] =>
+    match IR.Wire.exprOf e with
+    | some e => .str (IR.cExpr (showFloat reprs) e)
+    | none => Sexp.mk "bad-request" [.str "unknown-constructor"]
+  | "CPRINTS", [s, .list reprs] =>
+    match IR.Wire.stmtOf s with
+    | some s => .str ("\n".intercalate (IR.cStmt (showFloat reprs) s))
+    | none => Sexp.mk "bad-request" [.str "unknown-constructor"]
+  | "CERT", [.atom "hoist", m] =>
+    match IR.Wire.moduleOf m with
+    | some m => Sexp.ofBool (m.defs.all fun f => IR.hoistConsistent f.params f.body)
     | none => Sexp.mk "bad-request" [.str "unknown-constructor"]
   | "MAKEPROBLEM", [sg, fs] =>
     match Api.Wire.sigOf sg, Api.Wire.namedFmts fs with
